@@ -20,6 +20,7 @@ def ibWf (p : Params) : Bool :=
   && (match escChain p.encEsc p.encOff [] p.escOrder with
       | some qs => unescChain p.encEsc p.encOff qs p.unescOrder == some []
                    && qs.contains p.readTerm && p.encEsc != p.readTerm && qs.all (fun b => b + p.encOff != p.readTerm)
+                   && qs.contains p.encEsc
       | none => false)
   && decide (p.minFrame ≤ 8) && decide (p.minBody ≤ 6) && decide (p.crcPoly % 2 = 1) && decide (p.crcPoly < 65536)
   && decide (p.dstHi < 256) && decide (p.srcHi < 256)
@@ -35,6 +36,7 @@ structure IbWF (p : Params) : Prop where
   sotNe : p.encSot ≠ p.readTerm
   chain : ∃ qs, escChain p.encEsc p.encOff [] p.escOrder = some qs ∧ unescChain p.encEsc p.encOff qs p.unescOrder = some []
       ∧ qs.contains p.readTerm = true ∧ p.encEsc ≠ p.readTerm ∧ qs.all (fun b => b + p.encOff != p.readTerm) = true
+      ∧ qs.contains p.encEsc = true
   minFrame : p.minFrame ≤ 8
   minBody : p.minBody ≤ 6
   odd : p.crcPoly % 2 = 1
@@ -49,7 +51,7 @@ theorem ibWF_of (p : Params) (h : ibWf p = true) : IbWF p := by
   split at h6
   · rename_i qs hq
     simp only [Bool.and_eq_true, beq_iff_eq, bne_iff_ne, ne_eq] at h6
-    exact ⟨h1.symm, h2.symm, h3.symm, h4.symm, h5, by simpa using h5b, ⟨qs, hq, h6.1.1.1, h6.1.1.2, h6.1.2, h6.2⟩, h7, h8, h9, h10, h11, h12⟩
+    exact ⟨h1.symm, h2.symm, h3.symm, h4.symm, h5, by simpa using h5b, ⟨qs, hq, h6.1.1.1.1, h6.1.1.1.2, h6.1.1.2, h6.1.2, h6.2⟩, h7, h8, h9, h10, h11, h12⟩
   · cases h6
 
 
@@ -57,9 +59,10 @@ theorem ibWF_of (p : Params) (h : ibWf p = true) : IbWF p := by
 
 theorem escape_eq (p : Params) (h : IbWF p) :
     ∃ qs, (∀ bs, escape p bs = escSet p.encEsc p.encOff qs bs) ∧ (∀ bs, unescape p (escSet p.encEsc p.encOff qs bs) = bs)
-      ∧ qs.contains p.readTerm = true ∧ p.encEsc ≠ p.readTerm ∧ qs.all (fun b => b + p.encOff != p.readTerm) = true := by
-  obtain ⟨qs, h1, h2, h3, h4, h5⟩ := h.chain
-  refine ⟨qs, ?_, ?_, h3, h4, h5⟩
+      ∧ qs.contains p.readTerm = true ∧ p.encEsc ≠ p.readTerm ∧ qs.all (fun b => b + p.encOff != p.readTerm) = true
+      ∧ qs.contains p.encEsc = true := by
+  obtain ⟨qs, h1, h2, h3, h4, h5, h6⟩ := h.chain
+  refine ⟨qs, ?_, ?_, h3, h4, h5, h6⟩
   · intro bs
     have := foldl_escChain p.encEsc p.encOff p.escOrder [] qs h1 bs
     rw [escSet_empty] at this
@@ -78,9 +81,16 @@ theorem unescape_escape (p : Params) (h : IbWF p) (bs : Bytes) : unescape p (esc
 
 /-- the escaped stream never contains the terminator `read_until` waits for -/
 theorem escape_no_terminator (p : Params) (h : IbWF p) (bs : Bytes) : p.readTerm ∉ escape p bs := by
-  obtain ⟨qs, h1, _, h3, h4, h5⟩ := escape_eq p h
+  obtain ⟨qs, h1, _, h3, h4, h5, _⟩ := escape_eq p h
   rw [h1]
   exact not_mem_escSet _ _ _ qs h3 h4 h5 bs
+
+/-- **a conforming device un-escapes QMI's output to exactly the original bytes** (one-pass procedure of the manual) -/
+theorem device_unescapes (p : Params) (h : IbWF p) (bs : Bytes) :
+    specUnescape p.encEsc p.encOff (escape p bs) = some bs := by
+  obtain ⟨qs, h1, _, _, _, _, h6⟩ := escape_eq p h
+  rw [h1]
+  exact specUnescape_escSet _ _ qs h6 bs
 
 theorem length_le_escape (p : Params) (h : IbWF p) (bs : Bytes) : bs.length ≤ (escape p bs).length := by
   obtain ⟨qs, h1, _⟩ := escape_eq p h
@@ -175,6 +185,51 @@ theorem decode_encode (p : Params) (h : IbWF p) (m : Msg) (hv : Valid p m) :
     ∃ w, encode p m = .ok w ∧ decode p w = .ok m :=
   ⟨_, encode_valid p h m hv, decode_frame p h m (hv.decodable h)⟩
 
+
+/-- a conforming device's reading of a telegram (NKT SDK manual ch. 2): SOT, one-pass un-escaping, EOT, the CRC recomputed
+over everything but the last two bytes and compared with them (high byte first) — written independently of the
+decoder of the code -/
+def specDecode (p : Params) (w : Bytes) : Option Msg :=
+  match w with
+  | [] => none
+  | s :: t =>
+    if s ≠ p.encSot ∨ t.getLast? ≠ some p.encEot then none
+    else match specUnescape p.encEsc p.encOff t.dropLast with
+      | none => none
+      | some u =>
+        if u.length < 6 then none
+        else
+          let b := u.take (u.length - 2)
+          let c := u.drop (u.length - 2)
+          if crcOf p.crcPoly b ≠ (c.getD 0 0).toNat * 256 + (c.getD 1 0).toNat then none
+          else some ⟨(b.getD 0 0).toNat, (b.getD 1 0).toNat, (b.getD 2 0).toNat, (b.getD 3 0).toNat, b.drop 4⟩
+
+/-- **a conforming device decodes from QMI's output exactly what the driver asked to send**: every valid request,
+any data up to the limit, reserved bytes anywhere (also inside the CRC) -/
+theorem device_decodes_request (p : Params) (h : IbWF p) (m : Msg) (hv : Valid p m) :
+    ∃ w, encode p m = .ok w ∧ specDecode p w = some m := by
+  refine ⟨_, encode_valid p h m hv, ?_⟩
+  have hdec := hv.decodable h
+  have hc := crc_lt p h (body m)
+  unfold specDecode frame
+  simp only [List.cons_append, List.nil_append]
+  rw [if_neg (by simp)]
+  rw [List.dropLast_concat, device_unescapes p h]
+  simp only
+  have hfl : (fullBody p m).length = m.data.length + 6 := by simp [fullBody, body]
+  rw [if_neg (by omega)]
+  have htake : (fullBody p m).take ((fullBody p m).length - 2) = body m := by
+    unfold fullBody; rw [List.length_append]; simp
+  have hdrop : (fullBody p m).drop ((fullBody p m).length - 2)
+      = [UInt8.ofNat (crcOf p.crcPoly (body m) / 256), UInt8.ofNat (crcOf p.crcPoly (body m) % 256)] := by
+    unfold fullBody; rw [List.length_append]; simp
+  simp only [htake, hdrop]
+  have e0 : ((body m).getD 0 0).toNat = m.dest := by have := hdec.dst; simp [body]; omega
+  have e1 : ((body m).getD 1 0).toNat = m.src := by have := hdec.src; simp [body]; omega
+  have e2 : ((body m).getD 2 0).toNat = m.mtype := by have := hdec.typ.2; simp [body]; omega
+  have e3 : ((body m).getD 3 0).toNat = m.reg := by have := hdec.reg; simp [body]; omega
+  have e4 : (body m).drop 4 = m.data := by simp [body]
+  rw [if_neg (by simp; omega), e0, e1, e2, e3, e4]
 
 /-- the decoder raises nothing but ValueError -/
 theorem decode_error_kind (p : Params) (w : Bytes) (e : Exc) (h : decode p w = .error e) : e = .valueError := by
@@ -492,6 +547,21 @@ example : ([[0x0d, 0xa2, 0x07, 0x08], [0x20, 0x5e], [0x9e, 0x2b, 0xb6, 0x0a]] : 
     ∧ Decodable Gen.Layouts.interbus ⟨162, 7, 8, 0x20, [0x5e]⟩ ∧ Valid Gen.Layouts.interbus ⟨7, 161 + ((0 + 1) &&& 1), 4, 0x20, []⟩ := by
   refine ⟨by decide +kernel, ⟨?_, ?_, ?_, ?_⟩, ⟨?_, ?_, ?_, ?_, ?_⟩⟩ <;> decide
 
+/-! ### the same, read for the constants of the current source -/
+
+theorem gen_interbus_roundtrip (m : Msg) (hv : Valid Gen.Layouts.interbus m) :
+    ∃ w, encode Gen.Layouts.interbus m = .ok w ∧ decode Gen.Layouts.interbus w = .ok m ∧ specDecode Gen.Layouts.interbus w = some m := by
+  obtain ⟨w, h1, h2⟩ := decode_encode _ gen_interbus m hv
+  obtain ⟨w', h1', h2'⟩ := device_decodes_request _ gen_interbus m hv
+  rw [h1] at h1'; cases h1'
+  exact ⟨w, h1, h2, h2'⟩
+
+theorem gen_interbus_corruption_rejected (m : Msg) (pre post : Bytes) (b b' : UInt8)
+    (hsplit : fullBody Gen.Layouts.interbus m = pre ++ b :: post) (hne : b' ≠ b) :
+    decode Gen.Layouts.interbus ([Gen.Layouts.interbus.encSot] ++ escape Gen.Layouts.interbus (pre ++ b' :: post) ++ [Gen.Layouts.interbus.encEot])
+      = .error .valueError :=
+  corrupted_frame_rejected _ gen_interbus m pre post b b' hsplit hne
+
 end Interbus
 
 /-! # APT -/
@@ -676,6 +746,25 @@ theorem gen_apt_layouts :
     ∀ l ∈ Gen.Layouts.aptHdrParams :: Gen.Layouts.aptHdrData :: Gen.Layouts.aptPackets,
       l.Contiguous ∧ cellsSize l.cells = l.size ∧ l.msgId < 65536 ∧ l.size < 65536 ∧ (l.headerOnly = true → l.size = 6) := by
   decide
+
+/-! ### the same, read for every packet class of the current source -/
+
+theorem gen_apt_ask_roundtrip (dev host d s : Nat) (l : Layout) (hl : l ∈ Gen.Layouts.aptPackets) (vs : List Int) (rest : Bytes)
+    (h3 : d < 256) (h4 : s < 256) (hr : AllInRange l.cells vs) :
+    (l.headerOnly = false → ask (genProto dev host) l (dataHeader l.msgId l.size d s ++ pack l.cells vs ++ rest) = (.ok vs, rest)) ∧
+    (l.headerOnly = true → ask (genProto dev host) l (pack l.cells vs ++ rest) = (.ok vs, rest)) := by
+  obtain ⟨_, hsz, hid, hsize, hho⟩ := gen_apt_layouts l (List.mem_cons_of_mem _ (List.mem_cons_of_mem _ hl))
+  exact ⟨fun ho => ask_data_roundtrip _ (gen_apt_proto dev host) l d s vs rest ho hsz hid hsize h3 h4 hr,
+         fun ho => ask_header_only_roundtrip _ (gen_apt_proto dev host) l vs rest ho hsz (hho ho) hr⟩
+
+theorem gen_apt_ask_checks_id (dev host : Nat) (l : Layout) (buf rest : Bytes) (vs : List Int) (ho : l.headerOnly = false)
+    (hok : ask (genProto dev host) l buf = (.ok vs, rest)) : leVal (buf.take 2) = l.msgId :=
+  (ask_ok_id _ (gen_apt_proto dev host) l buf rest vs ho hok).1
+
+theorem gen_apt_write_data (dev host id : Nat) (data : Bytes) (h1 : id < 65536) (h2 : data.length < 65536)
+    (h4 : dev < 256) (h5 : host < 256) :
+    writeData (genProto dev host) id data = dataHeader id data.length (dev ||| 0x80) host ++ data :=
+  write_data_wire _ (gen_apt_proto dev host) id data h1 h2 h4 h5
 
 /-! ### non-vacuity -/
 
